@@ -541,7 +541,7 @@ Proof.
   - (* register *)
     unfold s_register, register_core. cbn -[mset mfind]. set (l := get_local s r).
     apply (justified_weaken s _ evs _ J).
-    + intros id k0 Hf. destruct (Z.eq_dec (l_id l) id) as [<-|Hn].
+    + intros id k0 Hf. cbn -[mset mfind] in Hf. destruct (Z.eq_dec (l_id l) id) as [<-|Hn].
       * rewrite mfind_mset_same in Hf. inversion Hf; subst. apply in_or_app. right. now left.
       * rewrite mfind_mset_other in Hf by auto. now apply Jmap.
     + apply locals_set_local_tokJ; [apply Jloc|apply Jget].
@@ -557,7 +557,7 @@ Proof.
     unfold r_lookup. set (l := get_local s r).
     destruct (mfind id (outstanding s)) as [k|] eqn:Hf; cbn -[mremove mfind].
     + apply (justified_weaken s _ evs _ J).
-      * intros id0 k0 Hf0. apply mfind_mremove_incl in Hf0. now apply Jmap.
+      * intros id0 k0 Hf0. cbn -[mremove mfind] in Hf0. apply mfind_mremove_incl in Hf0. now apply Jmap.
       * apply locals_set_local_tokJ; [apply Jloc|]. simpl. split.
         -- now apply Jmap.
         -- apply in_or_app. right. now left.
